@@ -117,21 +117,91 @@ class Result:
 def _check(pc, goal, timeout_ms):
     """returns (verdict, model|None, reason, backend)"""
     s = z3.Solver()
-    s.set("timeout", timeout_ms)
+    has_red = bool(_reduction_apps(list(pc) + [goal]))
+    s.set("timeout", 2000 if has_red else timeout_ms)
     s.add(*atom_axioms())
     s.add(*pc)
     s.add(z3.Not(goal))
     r = s.check()
+    if r == z3.unknown and has_red:
+        bm = _bounded_refute(pc, goal, timeout_ms)
+        if bm is not None:
+            return "refuted", bm[1], "counter-model with every reduction length = %d" % bm[0], "z3"
+        s.set("timeout", timeout_ms)
+        r = s.check()
     if r == z3.unsat:
         return "proved", None, "", "z3"
     if r == z3.sat:
         return "refuted", s.model(), "", "z3"
     reason = s.reason_unknown()
+    # reductions: try to *refute* with every reduction length fixed to a small N (finite sums are an
+    # instance of the Sum/LSE/Any vocabulary, so a model here is a genuine counter-model)
     # second back end: cvc5 on the SMT-LIB dump
     v = _cvc5(s, timeout_ms)
     if v == "unsat":
         return "proved", None, "z3 unknown (%s); cvc5 unsat" % reason, "cvc5"
     return "unknown", None, "z3: %s; cvc5: %s" % (reason, v), None
+
+
+def _reduction_apps(exprs):
+    seen, out = set(), []
+
+    def walk(e):
+        if e.get_id() in seen:
+            return
+        seen.add(e.get_id())
+        if z3.is_app(e) and e.decl().name() in ("Sum", "LSE", "Any") and e.num_args() == 2:
+            out.append(e)
+        if z3.is_quantifier(e):
+            walk(e.body())
+            return
+        for c in e.children():
+            walk(c)
+
+    for e in exprs:
+        walk(e)
+    return out
+
+
+def _bounded_refute(pc, goal, timeout_ms):
+    """expand every Sum/Any with all lengths = N (innermost first, by substitution, so that no lambda
+    is left in the query) and look for a model of (pc and not goal)"""
+    forms = list(pc) + [z3.Not(goal)]
+    if not _reduction_apps(forms):
+        return None
+    for N in (1, 2, 3):
+        fs = list(forms)
+        lens = []
+        ok = True
+        for _ in range(12):
+            apps = _reduction_apps(fs)
+            if not apps:
+                break
+            if any(a.decl().name() == "LSE" for a in apps):
+                ok = False
+                break
+            # innermost: no reduction inside its own lambda
+            inner = [a for a in apps if not _reduction_apps([a.arg(1)])]
+            subs = []
+            for a in inner:
+                n, lam = a.arg(0), a.arg(1)
+                lens.append(n == N)
+                elems = [z3.simplify(z3.Select(lam, z3.IntVal(k))) for k in range(N)]
+                exp = (z3.Sum(elems) if N > 1 else elems[0]) if a.decl().name() == "Sum" else z3.Or(*elems)
+                subs.append((a, exp))
+            fs = [z3.substitute(f, *subs) for f in fs]
+        else:
+            ok = False
+        if not ok:
+            continue
+        s = z3.Solver()
+        s.set("timeout", min(timeout_ms, 10000))
+        s.add(*atom_axioms())
+        s.add(*fs)
+        s.add(*lens)
+        if s.check() == z3.sat:
+            return N, s.model()
+    return None
 
 
 def _cvc5(solver, timeout_ms):
@@ -170,7 +240,7 @@ def cross_check_cvc5(pc, goal, timeout_ms):
     return _cvc5(s, timeout_ms)
 
 
-def run_contract(cls, tier="quick", cross=False):
+def run_contract(cls, tier="quick", cross=False, no_replay=()):
     """Explore all paths of all cases, discharge all clauses.  Returns (results, meta)."""
     timeout_ms = 10000 if tier == "quick" else 60000
     results = []
@@ -285,7 +355,7 @@ def run_contract(cls, tier="quick", cross=False):
             r.verdict = verdict
             r.backend = "+".join(sorted(backends)) or None
             r.seconds = time.time() - t0
-            if verdict == "refuted":
+            if verdict == "refuted" and r.name not in no_replay:
                 try:
                     r.replay = c.replay(case, name, r.model, r.failing_path)
                 except Exception as e:
